@@ -259,7 +259,7 @@ pub fn gen_tree(r: &mut Rng, f: &mut Forest, shape: Shape, size: usize, max_atom
                 f.list(&items)
             }
             let mut alphabet: Vec<Id> = Vec::new();
-            for b in [&[5u8][..], b"ab", &[0x11; 32], b""] {
+            for b in [&[5u8][..], b"ab", &[0x11; 32], b"", &[0x00, 0x80], &[0x80]] {
                 alphabet.push(f.atom(b));
             }
             for _ in 0..2 {
@@ -276,7 +276,11 @@ pub fn gen_tree(r: &mut Rng, f: &mut Forest, shape: Shape, size: usize, max_atom
             let mut pool: Vec<Id> = Vec::new();
             let natoms = (size / 2).clamp(1, 64);
             for _ in 0..natoms {
-                let b = if shape == Shape::Repeats && r.chance(1, 2) {
+                let b = if shape == Shape::Repeats && r.chance(1, 5) {
+                    // sign twins: a positive integer that needs a leading zero and the negative atom with the same
+                    // low bytes, near-identical values that only differ in representation-sensitive places
+                    r.pick(&[&[0x00u8, 0x80][..], &[0x80], &[0x00, 0xff], &[0xff], &[0x00, 0x80, 0x00], &[0x80, 0x00], &[0x00], &[]]).to_vec()
+                } else if shape == Shape::Repeats && r.chance(1, 2) {
                     // repeated values stored as separate nodes (equal, not shared)
                     let v = r.below(6) as u8;
                     vec![v; (v as usize % 3) * 10 + 1]
